@@ -44,7 +44,7 @@ def cells(tier):
     # a close attempt that is cancelled while the spawner of a named, still empty group waits for room; pool used again
     sc = scen(pool(1), [[A("X", 1), A("G", 2, name="g")], [["gac", {"when": "quiet_idle"}]], [["cancel_op", 1]],
                         [["unlock", {"after": [1, 1], "after_done": True}]], [P]], outcomes=["ret"])
-    out.append(cell("s1 X1,G2 named|gac@idle|cancel-the-close|unlock", sc, MON))
+    out.append(cell("s1 X1,G2 named|gac@idle|cancel-the-close|unlock", sc, MON, own_only=True))
     # lock()/unlock() while a flush() is suspended on a slow callback
     sc = scen(pool(2), [[A("A", 2)], [cancel(rid("A", 0))], [FLUSH], [LOCK], [P]], outcomes=["ret"], ecb="plain", ccb="slow", slow_ids=[0])
     out.append(cell("s2 A2 cancelA0 flush(in flight)|lock slowccb0", sc, MON))
